@@ -1815,20 +1815,40 @@ def rule_scratch(ctx):
                 if n_acc_sites == 0:
                     raise AnalysisBroken("R-SCRATCH: accumulator %s::%s is accumulated nowhere any more"
                                          % (cls, name))
+                # several scope kinds may share one buffer (<obs> and <height-differences> both push into `sigma`):
+                # then the buffer must be empty at every scope entry whatever scope came before, i.e. all scopes
+                # re-initialise at their start or all at their end - a mix leaves one order of scopes uncovered
+                per_group = []
                 for grp in m["entries"]:
+                    okpos = set()
                     cands = []
-                    for en in grp:
+                    for pos, en in enumerate(grp):
                         if en not in by_name:
                             raise AnalysisBroken("R-SCRATCH: scope entry %s::%s of %s not found" % (cls, en, name))
                         cands += by_name[en]
-                    okfn = [f for f in cands if sa.must_init(f, oid, scalars, abnormal, size_texts)]
+                        if any(sa.must_init(f, oid, scalars, abnormal, size_texts) for f in by_name[en]):
+                            okpos.add("start" if pos == 0 and len(grp) > 1 else ("end" if len(grp) > 1 else "only"))
+                    per_group.append((grp, cands, okpos))
+                common = None
+                for _, _, okpos in per_group:
+                    if okpos:       # a scope kind without any re-initialisation is reported on its own
+                        common = set(okpos) if common is None else (common & okpos)
+                for grp, cands, okpos in per_group:
                     for f in cands:
                         ctx.saw(f)
                     key = "%s:%s:reset-per-scope" % ("|".join(sorted({f.sig for f in cands})), name)
                     n_entry += 1
-                    if okfn:
-                        ctx.ok(rule, key, okfn[0].where(), okfn[0].short, "",
-                               {"role": "accumulator", "reason": m.get("reason", ""), "reset_in": okfn[0].short})
+                    if okpos and (common or len(per_group) == 1):
+                        ctx.ok(rule, key, cands[0].where(), cands[0].short, "",
+                               {"role": "accumulator", "reason": m.get("reason", ""), "reset_at": sorted(okpos)})
+                    elif okpos:
+                        f0 = cands[-1]
+                        ctx.bad(rule, key, f0.where(), f0.short,
+                                "`%s` is shared by %d kinds of scope; this one re-initialises it at its %s, another one "
+                                "only at its %s: when the other kind of scope comes first, this one starts from its "
+                                "content (%s)" % (name, len(per_group), "/".join(sorted(okpos)),
+                                                  "/".join(sorted(set().union(*[o for _, _, o in per_group]) - okpos)) or "?",
+                                                  m.get("reason", "")))
                     else:
                         f0 = cands[-1]
                         ctx.bad(rule, key, f0.where(), f0.short,
